@@ -1,7 +1,7 @@
 (* C03 - commits never run ahead of successfully processed messages.
    Theorem statements only; proofs live in Proofs/ConsumerC02*.v / ConsumerC03*.v.  Model: Model/Consumer.v
    (afkak/consumer.py:290-1131), monitors: Model/ConsumerLog.v. *)
-From AV Require Import Base.Util Model.Consumer Model.ConsumerLog Proofs.ConsumerC02ReqRun.
+From AV Require Import Base.Util Model.Consumer Model.ConsumerLog Proofs.ConsumerC02ReqRun Proofs.ConsumerC02PwRun.
 
 (* At most one commit request is in flight, and the public last_committed_offset (read at the end of every step) only
    ever holds the offset carried by a commit request the broker acknowledged or the offset an offset-fetch reply
@@ -15,7 +15,32 @@ Theorem C03_single_commit_committed_is_acked : forall fuel c maxatt buf evs,
 Proof. exact req_monitor_accepts. Qed.
 Print Assumptions C03_single_commit_committed_is_acked.
 
+(* Every commit request carries the offset of the last message of the most recent processor invocation that completed
+   SUCCESSFULLY (returned normally, or returned a Deferred that later fired with a result) - never the offset of a block
+   that is still being processed, failed, or was cancelled - and the public last_processed_offset read at the end of
+   every step is that offset: the monitor PW (Model/ConsumerLog.v; it learns of completions only from the plan oracle,
+   the return of the processor and EProcFire, and rejects an OCommit / end-of-step last_processed_offset that differs
+   from the last successful completion) accepts the run of the model, for every configuration with
+   auto_commit_every_n >= 0 and every event list that does not exhaust the interpreter's fuel. *)
+Theorem C03_commit_is_last_processed : forall fuel c maxatt buf evs,
+  0 <= c_acn c -> run_fuel_ok fuel c maxatt buf evs = true ->
+  mon_run pw_ev pw_out pw0 (model_obs fuel c maxatt buf evs)
+  = Some (pw_abs None (fst (run_events fuel (init c maxatt buf) evs))).
+Proof. exact pw_monitor_accepts. Qed.
+Print Assumptions C03_commit_is_last_processed.
+
 (* ---- non-vacuity ---- *)
+(* a commit of an offset whose block has been handed to the processor but not completed is rejected *)
+Example pw_rejects_commit_ahead :
+  mon_run pw_ev pw_out pw0 [(EFetchOk [4; 5] false, [OCallProc [4; 5]; OCommit (Some 5) (-1)])] = None.
+Proof. reflexivity. Qed.
+(* block [42;43] fails in the processor: nothing is committed, last_processed stays None *)
+Example failed_block_ex :
+  let c := mkCfg true 2 false 0 None 17 in
+  let evs := [EStart 42; EPlan 0 1; EFetchOk [42; 43; 44; 45] false; ECommit] in
+  run_fuel_ok 30 c 0 4096 evs = true /\
+  mon_run pw_ev pw_out pw0 (model_obs 30 c 0 4096 evs) = Some (mkPW PIdle [] None).
+Proof. vm_compute. split; reflexivity. Qed.
 (* the monitor rejects a second commit request in flight and an unacknowledged last_committed_offset *)
 Example rejects_second_commit :
   mon_run req_ev req_out q0 [(ECommit, [OCommit (Some 4) (-1); OCommit (Some 5) (-1)])] = None.
